@@ -297,6 +297,7 @@ class Ctx:
             return
         if math.isnan(v):
             return
+        v = max(-1e300, min(1e300, v))       # keep the evidence valid JSON
         if v > self.maxima.get(name, -math.inf):
             self.maxima[name] = v
 
@@ -356,6 +357,8 @@ def merge_reports(reports):
                 if len(o['witnesses']) < MAX_WITNESS:
                     o['witnesses'].append(w)
         for k, v in r['maxima'].items():
+            if not isinstance(v, (int, float)):
+                v = 1e300
             if v > out['maxima'].get(k, -math.inf):
                 out['maxima'][k] = v
         for k, v in r['info'].items():
